@@ -238,11 +238,22 @@ class Ctx:
 
 
 def _key_match(pattern, key):
+    """exact match, or a pattern in which every '*' stands for any (possibly empty) run of characters"""
     if pattern == key:
         return True
-    if pattern.endswith("*") and key.startswith(pattern[:-1]):
-        return True
-    return False
+    if "*" not in pattern:
+        return False
+    parts = pattern.split("*")
+    if not key.startswith(parts[0]) or not key.endswith(parts[-1]):
+        return False
+    pos = len(parts[0])
+    end = len(key) - len(parts[-1])
+    for mid in parts[1:-1]:
+        i = key.find(mid, pos, end)
+        if i < 0:
+            return False
+        pos = i + len(mid)
+    return pos <= end
 
 
 def tla_seq(xs):
